@@ -7,8 +7,9 @@ CONSTANTS Inf, Depth, Ivs, AdaptiveN, MaxLoss, Rand, Kinds
 VARIABLES kind, iv0, hist
 vars == <<kind, iv0, hist>>
 
-StaticOps == {[a |-> "call", iv |-> 0], [a |-> "next", iv |-> 0]} \cup {[a |-> "restatic", iv |-> i] : i \in Ivs}
-PlainOps == {[a |-> "call", iv |-> 0], [a |-> "next", iv |-> 0]}
+\* "sib": a call on a second static sampler made from the same base sampler (another object: a stutter for the observed one)
+StaticOps == {[a |-> "call", iv |-> 0], [a |-> "next", iv |-> 0], [a |-> "sib", iv |-> 0]} \cup {[a |-> "restatic", iv |-> i] : i \in Ivs}
+PlainOps == {[a |-> "call", iv |-> 0], [a |-> "next", iv |-> 0], [a |-> "sib", iv |-> 0]}
 Ratios == {<<0, 1>>, <<1, 4>>, <<1, 2>>, <<3, 4>>, <<1, 1>>}
 \* in simulation mode (Rand) one random loss vector per step keeps the branching small
 AdaptOps == IF Rand
